@@ -224,7 +224,11 @@ ANN_IS_CHECK = {
     'requires': ['wf(board.board)', 'kings_ok(board)'],
     # C06, straight from the property statement
     'ensures': ['res == attacked_by(board.board, opp(color), king_sq(board, color).0 as int, king_sq(board, color).1 as int)'],
-    'body_start': 'proof { reveal(kings_ok); }',
+    'body_start': '''proof { reveal(kings_ok);
+        let ok = king_sq(board, color); let ek = king_sq(board, opp(color));
+        assert(at(board.board, ok.0 as int, ok.1 as int) == Square::Full(Piece { kind: King, color: color }));
+        assert(at(board.board, ek.0 as int, ek.1 as int) == Square::Full(Piece { kind: King, color: opp(color) }));
+    }''',
     'expect': {'loops': [], 'returns': 0},
 }
 
